@@ -282,6 +282,7 @@ def run_variant(u, tier, defs, label):
         if missing and groups:
             raise Undecided("sliced solving lost obligations: " + ",".join(missing[:5]))
         r["obligations"] = len(results)
+        other = []
         for x in results:
             c = x.get("sourceLocation", {}).get("propertyClass", "?")
             r["classes"][c] = r["classes"].get(c, 0) + 1
@@ -290,7 +291,14 @@ def run_variant(u, tier, defs, label):
             elif x["status"] == "FAILURE":
                 r["failed"].append(short_prop(x))
             else:
-                raise Undecided("obligation %s has status %s" % (x["property"], x["status"]))
+                other.append((x["property"], x["status"]))
+        # UNKNOWN/ERROR next to a FAILURE: obligations cut off behind a failed (unwinding) assertion -
+        # the unit has failed obligations; on their own they leave the unit undecided
+        if other and not r["failed"]:
+            raise Undecided("obligation %s has status %s" % other[0])
+        r["not_evaluated"] = len(other)
+        if True:
+            pass
         # census
         if (u.get("enforce") or u.get("enforce_rec")) and not (r["classes"].get("postcondition") or r["classes"].get("assigns")):
             raise Undecided("census: no postcondition / frame obligation generated")
